@@ -1,3 +1,4 @@
+import Carquet.Proofs.ThriftRoundtripStructs
 import Carquet.Proofs.ImplReadsThrift
 import Carquet.Proofs.SpecFileWholeFull
 import Carquet.Proofs.ThriftTop
@@ -8,7 +9,8 @@ RowGroup, ColumnChunk and ColumnMetaData, chunk statistics (C13: `parseFileMetaD
 exactly the metadata structures `implSE` / `implRG` / `implCC` / `implCM` describe.
 -/
 namespace Carquet.Proofs.ImplReads
-open Carquet.Spec Carquet.Spec.File Carquet.Spec.Thrift Carquet.Spec.ParquetThrift
+open Carquet.Spec Carquet.Spec.File Carquet.Spec.Thrift
+open Carquet.Spec.ParquetThrift hiding Fields
 open Carquet.Impl
 open Carquet.Proofs.SpecFile (CcDesc RgDesc2 fmFields2 statsFieldsOf)
 
@@ -183,10 +185,25 @@ theorem se_sub : ∀ id, (lookupT (tblSchema 27) id).isSome = true → (schemaEl
   simp only [tblSchema, List.map_cons, List.map_nil, List.mem_cons, List.not_mem_nil, or_false] at hk
   rcases hk with rfl | rfl | rfl | rfl | rfl | rfl | rfl | rfl | rfl | rfl <;> rfl
 
+/-- the union value the reference writer states an annotation with is the Thrift value of the
+`carquet_logical_type_t` carquet's parser makes of it -/
+theorem annotationTV_impl (a : Schema.Annotation) : annotationTV a = logicalTypeTV (implLogical a) := by
+  cases a with
+  | time utc u => cases u <;> rfl
+  | timestamp utc u => cases u <;> rfl
+  | _ => rfl
+
+theorem implLogical_ne_unknown (a : Schema.Annotation) : implLogical a ≠ .unknown := by
+  cases a <;> simp [implLogical]
+
+theorem fLogical_impl (a : Schema.Annotation) : fLogical (some (implLogical a)) = [(10, annotationTV a)] := by
+  rw [annotationTV_impl]
+  cases a <;> rfl
+
 theorem se_known_ok (e : Schema.Element) : okFields (tblSchema 27) 30 (SpecFile.seFields e) := by
   unfold SpecFile.seFields
   simp only [okF_append]
-  refine ⟨⟨⟨⟨⟨?_, ?_⟩, ?_⟩, ?_⟩, ?_⟩, ?_⟩
+  refine ⟨⟨⟨⟨⟨⟨?_, ?_⟩, ?_⟩, ?_⟩, ?_⟩, ?_⟩, ?_⟩
   · apply okF_opt; intro x _; exact ⟨_, rfl⟩
   · split
     · exact okF_nil _ _
@@ -197,12 +214,33 @@ theorem se_known_ok (e : Schema.Element) : okFields (tblSchema 27) 30 (SpecFile.
     · exact okF_nil _ _
     · simp only [okF_cons]; exact ⟨⟨_, rfl⟩, okF_nil _ _⟩
   · apply okF_opt; intro x _; exact ⟨_, rfl⟩
+  · apply okF_opt; intro a _
+    rw [annotationTV_impl, logicalTypeTV_eq]
+    exact okT_struct _ _ 10 _ _ _ _ rfl (logical_ok 27 (by decide) (implLogical a))
+
+theorem se_base_of (e : Schema.Element) :
+    ofFields (tblSchema 27) {} (SpecFile.seFieldsBase e) = { implSE e with logicalType := none } := by
+  obtain ⟨⟨name, rep, pt, tl, lg, lt⟩, nc⟩ := e
+  by_cases ht : tl = 0 <;> by_cases hn : nc = 0 <;> cases pt <;> cases rep <;> cases lg <;>
+    simp only [SpecFile.seFieldsBase, implSE, optField, ht, hn, ↓reduceIte, List.cons_append, List.nil_append, List.append_nil, ofFields,
+      List.foldl_cons, List.foldl_nil] <;> rfl
 
 theorem se_known_of (e : Schema.Element) : ofFields (tblSchema 27) {} (SpecFile.seFields e) = implSE e := by
-  obtain ⟨⟨name, rep, pt, tl, lg⟩, nc⟩ := e
-  by_cases ht : tl = 0 <;> by_cases hn : nc = 0 <;> cases pt <;> cases rep <;> cases lg <;>
-    simp only [SpecFile.seFields, implSE, optField, ht, hn, ↓reduceIte, List.cons_append, List.nil_append, List.append_nil, ofFields,
-      List.foldl_cons, List.foldl_nil] <;> rfl
+  have hsplit : SpecFile.seFields e = SpecFile.seFieldsBase e ++ optField 10 annotationTV e.info.logicalType := rfl
+  rw [hsplit, ofFields_append, se_base_of]
+  cases hl : e.info.logicalType with
+  | none =>
+    simp only [optField, ofFields, List.foldl_nil, implSE, hl, Option.map_none]
+  | some a =>
+    have h := piece_logical 27 ({ implSE e with logicalType := none }) (some (implLogical a)) rfl
+    rw [fLogical_impl] at h
+    simp only [optField]
+    rw [h]
+    have hn : ThriftParquet.normLogical (some (implLogical a)) = some (implLogical a) := by
+      have := implLogical_ne_unknown a
+      cases hh : implLogical a <;> first | (exact absurd hh this) | rfl
+    rw [hn]
+    simp only [implSE, hl, Option.map_some]
 
 theorem se_written_ok (e : Schema.Element) (se : Fields) (hse : extrasOk schemaElement se = true) (hd : extrasDepth 30 se = true) :
     okFields (tblSchema 27) 30 (withExtras (SpecFile.seFields e) se) :=
